@@ -201,6 +201,11 @@ pub fn check_text_tol(rep: &mut Rep, s: &str, want: i128, class: &str, alt: Opti
 
 /// exact value of a decimal literal "a.b" times unit_ns, as a rational
 fn decimal_times(v: &str, unit_ns: i128) -> Option<(i128, i128)> {
+    if !v.contains('.') {
+        // a whole value: exactly v units (a parser that reads the digits as an integer is right, one that goes through
+        // a double is within float rounding of it - both are accepted by check_text_tol)
+        return Some((v.parse::<i128>().ok()?.checked_mul(unit_ns)?, 1));
+    }
     let (a, b) = v.split_once('.')?;
     let den = 10i128.checked_pow(b.len() as u32)?;
     let num = (a.parse::<i128>().ok()? * den + b.parse::<i128>().ok()?) * unit_ns;
